@@ -3,14 +3,15 @@
 # hook-free, via `go build -overlay` (nothing is written under /repo).
 set -e
 export GOFLAGS=-mod=mod GOPROXY=off GOSUMDB=off GOTOOLCHAIN=local CGO_ENABLED=${CGO_ENABLED:-0}
-V=/verif; B=$V/.build; mkdir -p $B
-cp /repo/go.mod $B/go.mod; cp /repo/go.sum $B/go.sum
+V=$(cd "$(dirname "$0")" && pwd); B=$V/.build; mkdir -p $B
+REPO=${VERIF_REPO:-/repo}
+cp $REPO/go.mod $B/go.mod; cp $REPO/go.sum $B/go.sum
 python3 - <<PY
 import json,glob,os
-rep={"/repo/go.mod":"$B/go.mod","/repo/go.sum":"$B/go.sum"}
+rep={"$REPO/go.mod":"$B/go.mod","$REPO/go.sum":"$B/go.sum"}
 for f in glob.glob("$V/harness/*.go"):
-    rep["/repo/cmd/verifharness/"+os.path.basename(f)]=f
+    rep["$REPO/cmd/verifharness/"+os.path.basename(f)]=f
 json.dump({"Replace":rep},open("$B/overlay.json","w"),indent=1)
 PY
 rm -f $B/verifharness
-cd /repo && go build -tags verif -overlay $B/overlay.json "$@" -o $B/verifharness ./cmd/verifharness
+cd $REPO && go build -tags verif -overlay $B/overlay.json "$@" -o $B/verifharness ./cmd/verifharness
